@@ -37,4 +37,5 @@ def run(rep, fb, tier):
     __import__("vf.rules.pyrules3", fromlist=["x"]).rule_py_duplicate_operand(rep)
     __import__("vf.rules.binding2", fromlist=["x"]).rule_binding_call_roles(rep, fb)
     __import__("vf.rules.lints3", fromlist=["x"]).rule_libc_null(rep, fb)
+    __import__("vf.rules.pyrules5", fromlist=["x"]).rule_py_duplicate_read(rep)
     rep.units = fb.units
